@@ -36,6 +36,9 @@ pub enum Op {
     Pipe,
     Write { fd: Fd, n: u64 },
     Read { fd: Fd, n: u64 },
+    /// read (rax 0) or write (rax 1) on a NON-pipe descriptor with a buffer that is not mapped:
+    /// whose business the buffer is, is the later hook's - the call must still reach it
+    ForeignBadBuffer { rax: u64, fd: u64, n: u64 },
 }
 
 #[derive(Clone, Debug, PartialEq, Eq, Hash)]
@@ -137,6 +140,13 @@ impl Spec for C14 {
         for raw in [0u64, 1, 5, 1023] {
             fds.push(Fd::Raw(raw));
         }
+        for raw in [1u64, 1023] {
+            for rax in [0u64, 1] {
+                for n in [0u64, 3] {
+                    v.push(Op::ForeignBadBuffer { rax, fd: raw, n });
+                }
+            }
+        }
         for fd in &fds {
             for n in [0u64, 1, 2, 3, 5] {
                 v.push(Op::Write { fd: fd.clone(), n });
@@ -187,6 +197,22 @@ impl Spec for C14 {
                 }
                 m2.pipes.push((base, base + 1, VecDeque::new()));
                 m2.next_fd = base + 2;
+            }
+            Op::ForeignBadBuffer { rax, fd, n } => {
+                let before = fp(ax);
+                let out = syscall(ax, *rax, *fd, 0x10, *n); // 0x10: no area there
+                let log = USER_LOG.with(|l| l.borrow().clone());
+                let what = if *rax == 0 { "read" } else { "write" };
+                match out {
+                    StepOut::Panic(p) => return Err(div(format!("{what}|panic@{}|non-pipe", p.tag()), format!("{what}({fd}, unmapped, {n}) panicked: {}", crate::emu::first_line(&p.msg)))),
+                    StepOut::Err(e) => return Err(div(format!("{what}|non-pipe-not-left-to-user-hook"), format!("{what}({fd}, unmapped buffer, {n}) on a non-pipe descriptor made the step fail instead of reaching the later hook: {}", crate::emu::first_line(&e)))),
+                    StepOut::Ok(_) => {}
+                }
+                if log != vec![(*rax, *fd)] {
+                    return Err(div(format!("{what}|non-pipe-not-left-to-user-hook"), format!("{what}({fd}, unmapped buffer, {n}) on a non-pipe descriptor reached the user hook as {log:?}")));
+                }
+                let _ = before;
+                return Ok(None); // nothing about the pipes changed: no new state
             }
             Op::Write { fd, n } => {
                 let fdn = match m.resolve(fd) {
@@ -297,6 +323,7 @@ impl Spec for C14 {
             Op::Pipe => "pipe".to_string(),
             Op::Write { fd, .. } => format!("write|{}", match fd { Fd::R(_) => "read-end", Fd::W(_) => "write-end", Fd::Raw(_) => "non-pipe" }),
             Op::Read { fd, .. } => format!("read|{}", match fd { Fd::R(_) => "read-end", Fd::W(_) => "write-end", Fd::Raw(_) => "non-pipe" }),
+            Op::ForeignBadBuffer { rax, .. } => format!("{}|non-pipe-bad-buffer", if *rax == 0 { "read" } else { "write" }),
         };
         format!("{k}|{}pipes", m.pipes.len())
     }
@@ -313,7 +340,7 @@ pub fn run(tier: Tier) -> i32 {
     }
     let depth = std::env::var("VERIF_DEPTH").ok().and_then(|s| s.parse().ok()).unwrap_or(if tier.is_thorough() { 10 } else { 8 });
     let out = run_stexp(Arc::clone(&spec), depth, crate::common::ncpu(), 1 << 30, if tier.is_thorough() { 1500 } else { 45 });
-    st_evidence(&mut run, &out, depth, "guest syscalls pipe() (<= 2 pipes), write(fd, n in {0,1,2,3,5}) of fresh counter bytes, read(fd, n in {0,1,2,4,8}); fd in both ends of both pipes and {0, 1, 5, 1023}; a user hook registered after the built-in handler logs what reaches it; descriptor seam: distinct and forced-colliding answers");
+    st_evidence(&mut run, &out, depth, "guest syscalls pipe() (<= 2 pipes), write(fd, n in {0,1,2,3,5}) of fresh counter bytes, read(fd, n in {0,1,2,4,8}); fd in both ends of both pipes and {0, 1, 5, 1023}; read/write on descriptors 1 and 1023 with an unmapped buffer; a user hook registered after the built-in handler logs what reaches it; descriptor seam: distinct and forced-colliding answers");
     run.guard("states", out.states >= 200, format!("{} states", out.states));
     run.assume("wrong-end operations and descriptor collisions: crash-freedom only; where pipe() stores the descriptors in guest memory is not checked");
     let spec2 = Arc::clone(&spec);
